@@ -29,6 +29,45 @@ func init() {
 	extraKinds["cost"] = runCost
 	extraKinds["scale"] = runScale
 	extraKinds["docscale"] = runDocScale
+	extraKinds["count"] = runCount
+}
+
+// runCount: a family whose value is its repetition count, at the boundaries
+// of 8- and 16-bit counters (expected values come from the specification).
+func runCount(m map[string]any) Result {
+	head, _ := cpsToString(m["head"])
+	rep, _ := cpsToString(m["rep"])
+	tail, _ := cpsToString(m["tail"])
+	family := getString(m, "family")
+	doc, err := fromJSON(m["doc"])
+	if err != nil {
+		return Result{Class: "harness", Detail: err.Error()}
+	}
+	counts, _ := m["counts"].([]any)
+	for _, c := range counts {
+		cm, _ := c.(map[string]any)
+		n := 0
+		if v, ok := cm["n"].(interface{ Int64() (int64, error) }); ok {
+			x, _ := v.Int64()
+			n = int(x)
+		}
+		adm, err := decodeAdm(cm["adm"])
+		if err != nil {
+			return Result{Class: "harness", Detail: err.Error()}
+		}
+		text := head + strings.Repeat(rep, n) + tail
+		b := &builder{}
+		r := doSearch(text, b.build(doc))
+		if r.panicked {
+			res := fail("panic", r.out, fmt.Sprintf("family %s, %d repetitions: %s", family, n, firstLines(r.stack, 12)))
+			res.Site = r.site
+			return res
+		}
+		if !admits(adm, r.out) {
+			return fail("mismatch", r.out, fmt.Sprintf("family %s with %d repetitions (%s%s...%s): outcome outside the admissible set, expected %s", family, n, head, rep, tail, adm[0].show()))
+		}
+	}
+	return Result{OK: true, Pinned: true, GotS: fmt.Sprintf("%s: %d counts", family, len(counts))}
 }
 
 // nestDoc builds [[[ ... 1 ... ]]] with d levels, iteratively.
@@ -195,7 +234,15 @@ func runScale(m map[string]any) Result {
 	if err != nil {
 		return Result{Class: "harness", Detail: err.Error()}
 	}
-	text := func(n int) string { return strings.Repeat(pre, n) + core + strings.Repeat(post, n) }
+	head, _ := cpsToString(m["head"])
+	tail, _ := cpsToString(m["tail"])
+	if m["head"] == nil {
+		head = ""
+	}
+	if m["tail"] == nil {
+		tail = ""
+	}
+	text := func(n int) string { return head + strings.Repeat(pre, n) + core + strings.Repeat(post, n) + tail }
 	var prev time.Duration
 	for n := 64; n <= 8192; n *= 2 {
 		x := measureSearch(text(n), doc, 2)
